@@ -50,10 +50,31 @@ def _is_name(node, name):
     return isinstance(node, ast.Name) and node.id == name
 
 
+#: {function name: True} for module-level functions whose body is a single `return <membership / comparison>` (set by extract)
+_RETURNS_BOOL: Dict[str, bool] = {}
+
+
+def _note_bool_functions(tree):
+    _RETURNS_BOOL.clear()
+    for n in tree.body:
+        if isinstance(n, ast.FunctionDef):
+            body = [s for s in n.body if not (isinstance(s, ast.Expr) and isinstance(s.value, ast.Constant))]
+            if len(body) == 1 and isinstance(body[0], ast.Return) and isinstance(body[0].value, ast.Compare) \
+                    and all(isinstance(o, (ast.In, ast.NotIn, ast.Eq, ast.NotEq, ast.Is, ast.IsNot)) for o in body[0].value.ops):
+                _RETURNS_BOOL[n.name] = True
+
+
 def _validity_prelude(stmts, fname):
     """the two `if is_valid_element_name(x) is False: raise ValueError` statements"""
     seen = []
     for st in stmts[:2]:
+        # `if not is_valid_element_name(x):` says the same as `… is False` when the callee returns a bool — which is
+        # checked on the callee (`return <x> in <…>`), not assumed; the test is then read in its `is False` form
+        if isinstance(st, ast.If) and isinstance(st.test, ast.UnaryOp) and isinstance(st.test.op, ast.Not) \
+                and isinstance(st.test.operand, ast.Call) and _is_name(st.test.operand.func, 'is_valid_element_name') \
+                and _RETURNS_BOOL.get('is_valid_element_name'):
+            st = ast.If(test=ast.Compare(left=st.test.operand, ops=[ast.Is()], comparators=[ast.Constant(value=False)]),
+                        body=st.body, orelse=st.orelse)
         ok = (isinstance(st, ast.If) and isinstance(st.test, ast.Compare) and len(st.test.ops) == 1
               and isinstance(st.test.ops[0], ast.Is) and isinstance(st.test.comparators[0], ast.Constant)
               and st.test.comparators[0].value is False and isinstance(st.test.left, ast.Call)
@@ -187,7 +208,9 @@ def lean_list(xs: List[str]) -> str:
 
 def extract(repo: str) -> Dict[str, object]:
     path = os.path.join(repo, 'pagexml', 'model', 'xml.py')
-    tree = ast.parse(open(path, encoding='utf-8').read())
+    from harness.astnorm import normalise     # named constants / folded literals read as the literals they are
+    tree = normalise(ast.parse(open(path, encoding='utf-8').read()), keep=('PAGE',))
+    _note_bool_functions(tree)
     valid_tags = None
     for n in tree.body:
         if isinstance(n, ast.Assign) and len(n.targets) == 1 and _is_name(n.targets[0], 'VALID_TAGS'):
